@@ -7,8 +7,8 @@ import (
 	"sort"
 	"strings"
 
-	"github.com/jmattheis/goverter/config"
 	"github.com/jmattheis/goverter/comments"
+	"github.com/jmattheis/goverter/config"
 
 	"gvh/internal/drv"
 	"gvh/internal/rng"
